@@ -470,3 +470,103 @@ func RunKillTimeoutCase(seed int64, workDir string, variant int) *HistResult {
 	}
 	return res
 }
+
+// RunProcGapCase (C20): a job of two tasks whose first task leaves a script-level background command (`cmd &`, which the
+// task run does not wait for) is canceled exactly in the gap between its two tasks (scheduler loop parked through hook
+// H1 when the first task is done and the second not launched). Nothing of the job may survive the kill timeout. (Whether
+// the process is gone at the very instant of the report is the known finding D9 and is not judged here.)
+func RunProcGapCase(seed int64, workDir string, variant int) *HistResult {
+	res := &HistResult{Seed: seed, Situations: map[string]map[string]struct{}{}, Evaluations: map[string]int{}}
+	find := func(sig, format string, args ...any) {
+		res.Findings = append(res.Findings, Finding{Props: []string{"C20"}, Sig: sig, Detail: fmt.Sprintf(format, args...), Step: -1})
+	}
+	dir, err := os.MkdirTemp(workDir, "gap-")
+	if err != nil {
+		res.Inconclusive = err.Error()
+		return res
+	}
+	defer os.RemoveAll(dir)
+	killTimeout := 300 * time.Millisecond
+	bg := []string{"PXV_MARK={{.mark}} sleep 300 &", `PXV_MARK={{.mark}} bash -c 'sleep 300; true' &`, "PXV_MARK={{.mark}} sleep 300 & PXV_MARK={{.mark}} sleep 302 &"}[variant%3]
+	viaShutdown := (variant/3)%2 == 1
+	def := definition.PipelineDef{Concurrency: 1, SourcePath: "gen", Tasks: map[string]definition.TaskDef{
+		"first":  {Script: []string{bg, "true"}},
+		"second": {Script: []string{"PXV_MARK={{.mark}} sleep 301"}, DependsOn: []string{"first"}},
+	}}
+	specs := []gen.PipeSpec{{Name: "gap", Def: def, Graph: gen.Graph{Names: []string{"first", "second"}, Deps: map[string][]string{"second": {"first"}}}}}
+	sys, _, _, err := realSys(specs, dir, killTimeout)
+	if err != nil {
+		res.Inconclusive = err.Error()
+		return res
+	}
+	defer sys.Close()
+	mark := fmt.Sprintf("g%d-%d", os.Getpid(), seed&0xffffff)
+	defer func() {
+		for _, pid := range scanMarked(mark) {
+			if p, err := os.FindProcess(pid); err == nil {
+				_ = p.Kill()
+			}
+		}
+	}()
+	// park the loop of every job of this runner at the first iteration top where "first" is done and "second" still waits
+	sys.SetParkAll(func(job string, count int64, st map[string]int32) bool { return st["first"] == 3 && st["second"] == 0 })
+	id, cls := sys.Schedule(0, "gap", map[string]interface{}{"mark": mark}, "u")
+	if cls != "ok" {
+		res.Inconclusive = "schedule: " + cls
+		return res
+	}
+	deadline := time.Now().Add(15 * time.Second)
+	for {
+		if p, _ := sys.Parked(id); p {
+			break
+		}
+		if time.Now().After(deadline) {
+			res.Inconclusive = "the loop did not reach the gap between the two tasks"
+			sys.SetParkAll(nil)
+			return res
+		}
+		time.Sleep(time.Millisecond)
+	}
+	sys.SetParkAll(nil)
+	up := len(scanMarked(mark))
+	res.sit("C20", fmt.Sprintf("canceled in the gap between two tasks, background command of the first task: %d processes up, via shutdown=%v, script %d", min(up, 2), viaShutdown, variant%3))
+	res.Evaluations["C20"]++
+	if up == 0 {
+		res.Inconclusive = "the background command of the first task is not running in the gap"
+		sys.Unpark(id)
+		return res
+	}
+	t0 := time.Now()
+	if viaShutdown {
+		ctx, cancel := context.WithCancel(context.Background())
+		cancel()
+		go func() { _ = sys.Shutdown(0, ctx, "forced") }()
+		// the forced shutdown cancels under the runner's lock; let it get there before the loop goes on
+		time.Sleep(20 * time.Millisecond)
+	} else if c := sys.Cancel(0, id); c != "ok" {
+		find("C20:cancel-result", "cancel returned %q", c)
+	}
+	sys.Unpark(id)
+	finished := false
+	for time.Since(t0) < killTimeout+8*time.Second {
+		if j, ok := sys.ReadJob(id); ok && j.Completed {
+			finished = true
+			break
+		}
+		time.Sleep(time.Millisecond)
+	}
+	if !finished {
+		find("C20:canceled-job-never-reported-finished", "job canceled in the gap between its two tasks was not reported finished within kill timeout + 8 s")
+		return res
+	}
+	res.journalf("gap case: %d processes up at cancel, reported finished after %v", up, time.Since(t0).Round(time.Millisecond))
+	// nothing survives the kill timeout (allowance 5 s, then decide)
+	// (counted in this goroutine's own 20 ms sleeps, so that a stalled machine stalls the clock)
+	for i := 0; i < int((killTimeout+5*time.Second)/(20*time.Millisecond)) && len(scanMarked(mark)) > 0; i++ {
+		time.Sleep(20 * time.Millisecond)
+	}
+	if late := scanMarked(mark); len(late) > 0 {
+		find("C20:process-survives-kill-timeout", "a job whose first task left a background command was canceled between its two tasks: %v after the cancel (kill timeout %v) %d of its processes are still alive: %s", time.Since(t0).Round(time.Millisecond), killTimeout, len(late), describePids(late))
+	}
+	return res
+}
